@@ -82,6 +82,24 @@ theorem iorn_n_spec (u v : List Nat) (hu : Limbs u) (hv : Limbs v) (hl : u.lengt
   rw [iorn_n_eq u v hu hv]; exact ⟨by rw [c1, e, n, hl], c2, by rw [c3, n, hl]⟩
 example : iorn_n [1, 0] [B - 1, 0xff] = [1, B - 256] := by decide
 
+/-! ## mpn_scan1 / mpn_scan0 (inside the C's documented precondition: a matching bit exists) -/
+
+/-- mpn_scan1: the first one bit at or after `start`. -/
+theorem mpn_scan1_spec (u : List Nat) (hu : Limbs u) (start : Nat)
+    (hpre : ∃ j, start ≤ j ∧ (val u).testBit j = true) :
+    ∃ r, mpn_scan1 u start = some r ∧ start ≤ r ∧ (val u).testBit r = true ∧
+      ∀ j, start ≤ j → j < r → (val u).testBit j = false :=
+  mpn_scan1_correct u hu start hpre
+example : mpn_scan1 [0, 0, 0x50] 7 = some 132 ∧ mpn_scan1 [0xff, 0] 3 = some 3 := by decide
+
+/-- mpn_scan0: the first zero bit at or after `start` (one must exist inside the operand). -/
+theorem mpn_scan0_spec (u : List Nat) (hu : Limbs u) (start : Nat)
+    (hpre : ∃ j, start ≤ j ∧ j / 64 < u.length ∧ (val u).testBit j = false) :
+    ∃ r, mpn_scan0 u start = some r ∧ start ≤ r ∧ r / 64 < u.length ∧ (val u).testBit r = false ∧
+      ∀ j, start ≤ j → j < r → (val u).testBit j = true :=
+  mpn_scan0_correct u hu start hpre
+example : mpn_scan0 [B - 1, B - 1, 0x2f] 7 = some 132 ∧ mpn_scan0 [0xf0, 0] 5 = some 8 := by decide
+
 /-! ## mpz_and / mpz_ior / mpz_xor / mpz_com: all four sign combinations, any lengths, result well formed -/
 
 /-- mpz_and equals Mathlib's two's-complement `Int.land`; the result is well formed (in particular in the
